@@ -215,12 +215,85 @@ for _name, _kind, _nin in [('dot', 'general', 1), ('inv', 'general', 1), ('solve
     reg(_op)
 
 
+# ---------------------------------------------------------------- dot / outer with two independent operands, every operand-kind mix
+def _gen_product(name):
+    def gen(rng, Dmax=6, Pmax=3):
+        D = rng.randint(2, max(2, min(Dmax, 5))); P = rng.randint(1, Pmax)
+        kind = rng.choice(['UU', 'Ua', 'aU'])
+        if name == 'outer':
+            xs, ys = (rng.randint(1, 4),), (rng.randint(1, 4),)
+        else:
+            xs, ys = rng.choice([((3,), (3,)), ((2, 3), (3,)), ((3,), (3, 2)), ((2, 3), (3, 2)), ((3, 3), (3,)), ((2,), (2, 2)), ((1, 2), (2, 3))])
+        x = _rand_utpm(rng, D, P, xs); y = _rand_utpm(rng, D, P, ys)
+        if kind == 'UU':
+            return dict(op='product:' + name, kind=kind, inputs=[x.tolist(), y.tolist()], const=None)
+        if kind == 'Ua':
+            return dict(op='product:' + name, kind=kind, inputs=[x.tolist()], const=y[0, 0].tolist())
+        return dict(op='product:' + name, kind=kind, inputs=[y.tolist()], const=x[0, 0].tolist())
+    return gen
+
+
+def _product_args(case, ins, wrap):
+    c = None if case['const'] is None else numpy.array(case['const'], dtype=float)
+    if case['kind'] == 'UU':
+        return wrap(ins[0]), wrap(ins[1])
+    if case['kind'] == 'Ua':
+        return wrap(ins[0]), c
+    return c, wrap(ins[0])
+
+
+def _run_product(name):
+    def run(algopy, case, inputs):
+        a, b = _product_args(case, inputs, lambda d: algopy.UTPM(_as(d)))
+        return [numpy.asarray(getattr(algopy, name)(a, b).data)]
+    return run
+
+
+def _ref0_product(name):
+    def ref0(case, ins0):
+        a, b = _product_args(case, ins0, lambda d: numpy.asarray(d))
+        return [getattr(numpy, name)(a, b)]
+    return ref0
+
+
+# general eigenproblem (first order only: UTPM.eig supports D <= 2), real distinct spectrum, non-normal matrices
+def _gen_eig(rng, Dmax=6, Pmax=3):
+    D = 2; P = rng.randint(1, Pmax); n = rng.randint(2, 3)
+    A = _rand_utpm(rng, D, P, (n, n))
+    for p in range(P):
+        T = numpy.eye(n) + numpy.triu(numpy.array([[rng.randint(-2, 2) / 4 for _ in range(n)] for _ in range(n)]), 1)
+        lam = sorted(rng.sample([-4, -2.5, -1, 0.5, 2, 3.5, 5], n))
+        A[0, p] = T @ numpy.diag(lam) @ numpy.linalg.inv(T)
+    return dict(op='linalg:eig', inputs=[A.tolist()])
+
+
+def _run_eig(algopy, case, inputs):
+    l, Q = algopy.eig(algopy.UTPM(_as(inputs[0])))
+    return [numpy.asarray(l.data), numpy.asarray(Q.data)]
+
+
+_op = Op('linalg:eig', _gen_eig, _run_eig, 'linalg')
+_op.only = ('C11', 'C14')
+reg(_op)
+
+for _name in ('dot', 'outer'):
+    _op = Op('product:' + _name, _gen_product(_name), _run_product(_name), 'product')
+    _op.ref0 = _ref0_product(_name)
+    reg(_op)
+
+
 # ---------------------------------------------------------------- in-place arithmetic (x op= y): the result is x afterwards
 def _gen_inplace(opname):
     def gen(rng, Dmax=6, Pmax=3):
         D = rng.randint(2, max(2, Dmax)); P = rng.randint(1, Pmax)
-        xs = rng.choice([(), (3,), (2, 2), (2, 3)])
-        ys = rng.choice([xs, xs, ()]) if xs != () else ()
+        xs = rng.choice([(), (3,), (2, 2), (2, 3), (P,), (P, 2), (3, 2)])
+        # right operands that broadcast INTO the left one: same shape, scalar, trailing sub-shapes, extents of one
+        cands = [xs, xs, ()]
+        if len(xs) >= 1:
+            cands += [xs[1:], (1,) * len(xs), (1,) + xs[1:]]
+        if len(xs) >= 2:
+            cands += [xs[:-1] + (1,)]
+        ys = rng.choice(cands) if xs != () else ()
         x = _rand_utpm(rng, D, P, xs, base_nz=True)
         y = _rand_utpm(rng, D, P, ys, base_nz=True)
         return dict(op='inplace:' + opname, inputs=[x.tolist(), y.tolist()])
